@@ -133,9 +133,46 @@ theorem gen_lossy_next (src : Bytes) : Gen.Fn.lossy_next src = some (lossyNext s
     simp only [he, Bool.false_eq_true, if_false, h, gen_lossy_loop, hch]
     rfl
 
+theorem isEmpty_not_ne (b : Bytes) : (!b.isEmpty) = decide (b ≠ []) := by
+  cases b <;> simp
+
+theorem gen_lossy_in_loop (dbg : Bool) (v : Bytes) : ∀ (fuel : Nat) (it res : Bytes),
+    Gen.Fn.from_utf8_lossy_in.loop dbg v fuel it res = lossyRest fuel it res := by
+  intro fuel
+  induction fuel with
+  | zero => intro it res; rfl
+  | succ fuel ih =>
+    intro it res
+    unfold Gen.Fn.from_utf8_lossy_in.loop lossyRest
+    rw [gen_lossy_next]
+    cases lossyNext it with
+    | none => rfl
+    | some ch =>
+      simp only [isEmpty_not_ne, ih]
+      by_cases hb : ch.broken = []
+      · simp [hb]
+      · simp [hb, REPLACEMENT]
+
+/-- `String::from_utf8_lossy_in` as translated (over the translated chunk iterator) is the model's `fromUtf8Lossy` -/
+theorem gen_from_utf8_lossy_in (dbg : Bool) (v : Bytes) : Gen.Fn.from_utf8_lossy_in dbg v = fromUtf8Lossy dbg v := by
+  unfold Gen.Fn.from_utf8_lossy_in fromUtf8Lossy
+  rw [gen_lossy_next]
+  cases lossyNext v with
+  | none => rfl
+  | some ch =>
+    simp only [isEmpty_not_ne, gen_lossy_in_loop]
+    by_cases hl : ch.valid.length = v.length
+    · by_cases hb : ch.broken = [] <;> simp [hl, hb]
+    · have : (ch.valid.length == v.length) = false := by simpa using hl
+      simp only [this, hl, Bool.false_eq_true, if_false]
+      by_cases hb : ch.broken = []
+      · simp [hb]
+      · simp [hb, REPLACEMENT]
+
 #print axioms arms3_eq
 #print axioms arms4_eq
 #print axioms gen_lossy_loop
 #print axioms gen_lossy_next
 
 end Bump.Str
+#print axioms Bump.Str.gen_from_utf8_lossy_in
